@@ -29,6 +29,13 @@ def run_property(prop: str, repo: str, tier: str, seed: int, evidence_dir=None, 
     ctx = Ctx(repo, prop, tier=tier, seed=seed)
     ctx.only = only
     mod.check(ctx)
+    if getattr(ctx, "inlined", None):
+        seen = []
+        for h, g, _l in ctx.inlined:
+            t = "%s <- %s" % (h.split("synrbl.", 1)[-1], g.split("synrbl.", 1)[-1])
+            if t not in seen:
+                seen.append(t)
+        ctx.note("helpers that do not exist on the reference tree were expanded in place before analysis: " + "; ".join(seen[:12]) + (" ..." if len(seen) > 12 else ""))
     # make sure call statistics are available for the evidence
     _ = ctx.graph
     ctx.check_vacuity()
